@@ -261,6 +261,9 @@ def check(ctx):
             # thorough: C05 visits every front end for every case; C06 / C18 rotate through them (4 resp. 6 per case)
             k = 4 if prop == "C06" else 6
             fes = [fes[(n + j) % len(fes)] for j in range(min(k, len(fes)))]
+        if prop == "C05" and n % 5 == 2:
+            # a legacy-style configuration that still carries input-named parameters: the stream's rows must win
+            fes = [fes[0] + "+stale"] + fes[1:] if ctx.quick else fes + [f + "+stale" for f in fes]
         for fe in fes:
             form = forms[(n + len(fe)) % 3]
             add_run(tb, cfg, fe, "base", form, max_orders)
